@@ -521,7 +521,7 @@ def _shape_usage(t: ast.Tuple, fn, defs) -> Optional[str]:
     p = parent(t)
     hops = 0
     while p is not None and hops < 4:
-        if isinstance(p, ast.Call) and ast.unparse(p.func).split(".")[-1] == "zeros":
+        if isinstance(p, ast.Call) and ast.unparse(p.func).split(".")[-1] in ("zeros", "new_zeros"):
             tg = zeros_target(p)
             return "zeros->%s" % tg if tg in R else None
         if isinstance(p, ast.IfExp):
@@ -531,7 +531,7 @@ def _shape_usage(t: ast.Tuple, fn, defs) -> Optional[str]:
         if isinstance(p, ast.Assign) and isinstance(p.targets[0], ast.Name):
             nm = p.targets[0].id
             for c in own_nodes(fn):
-                if isinstance(c, ast.Call) and ast.unparse(c.func).split(".")[-1] == "zeros" and c.args \
+                if isinstance(c, ast.Call) and ast.unparse(c.func).split(".")[-1] in ("zeros", "new_zeros") and c.args \
                         and isinstance(c.args[0], ast.Name) and c.args[0].id == nm:
                     tg = zeros_target(c)
                     if tg in R:
